@@ -695,6 +695,106 @@ raw_send (int idx, const uint8_t *b, size_t n)
 	fprintf (lg, "S %.6f %d %zu %zu\n", now (), idx, n, off);
 }
 
+/* ---- several connections in one process: failures that hit the daemon within one pass of its loop ---- */
+
+#define MAX_MFD 8
+static int mfd[MAX_MFD];
+static int n_mfd;
+
+static int
+unix_connect (const char *path)
+{
+	struct sockaddr_un sa;
+	int fd = socket (AF_UNIX, SOCK_STREAM, 0);
+	int i;
+
+	memset (&sa, 0, sizeof (sa));
+	sa.sun_family = AF_UNIX;
+	snprintf (sa.sun_path, sizeof (sa.sun_path), "%s", path);
+	for (i = 0; i < 50; ++i) {
+		if (0 == connect (fd, (struct sockaddr *) &sa, sizeof (sa)))
+			return fd;
+		msleep (20);
+	}
+	close (fd);
+	return -1;
+}
+
+/* read from one socket until a message of this type arrived or ms elapsed; messages are not logged */
+static int
+multi_wait (int fd, int want, long ms)
+{
+	static uint8_t buf[1 << 16];
+	size_t len = 0;
+	double t_end = now () + ms / 1000.0;
+
+	while (now () < t_end) {
+		struct pollfd pfd;
+		ssize_t r;
+
+		pfd.fd = fd;
+		pfd.events = POLLIN;
+		if (poll (&pfd, 1, 20) <= 0)
+			continue;
+		r = recv (fd, buf + len, sizeof (buf) - len, MSG_DONTWAIT);
+		if (r <= 0)
+			return 0;
+		len += (size_t) r;
+		while (len >= 8) {
+			uint32_t l, t;
+
+			memcpy (&l, buf, 4);
+			memcpy (&t, buf + 4, 4);
+			l = ntohl (l);
+			t = ntohl (t);
+			if (l < 8 || l > sizeof (buf))
+				return 0;
+			if (len < l)
+				break;
+			if ((int) t == want)
+				return 1;
+			memmove (buf, buf + l, len - l);
+			len -= l;
+		}
+	}
+	return 0;
+}
+
+static void
+multi_drain (long ms)
+{
+	double t_end = now () + ms / 1000.0;
+	uint8_t sink[8192];
+
+	while (now () < t_end) {
+		struct pollfd pfd[MAX_MFD];
+		int i, n = 0;
+
+		for (i = 0; i < n_mfd; ++i)
+			if (mfd[i] >= 0) {
+				pfd[n].fd = mfd[i];
+				pfd[n].events = POLLIN;
+				++n;
+			}
+		if (0 == n) {
+			msleep ((long) ((t_end - now ()) * 1000));
+			break;
+		}
+		if (poll (pfd, (nfds_t) n, 10) <= 0)
+			continue;
+		for (i = 0; i < n_mfd; ++i)
+			if (mfd[i] >= 0) {
+				ssize_t r = recv (mfd[i], sink, sizeof (sink), MSG_DONTWAIT);
+
+				if (0 == r || (r < 0 && EAGAIN != errno && EINTR != errno)) {
+					fprintf (lg, "MEOF %.6f %d\n", now (), i);
+					close (mfd[i]);
+					mfd[i] = -1;
+				}
+			}
+	}
+}
+
 static int
 raw_main (int argc, char **argv)
 {
@@ -771,6 +871,93 @@ raw_main (int argc, char **argv)
 					raw_send (idx, b + k, n - (size_t) k);
 			}
 			free (b);
+			break;
+		}
+
+		case 'C': /* C<n>,<hex>: open n connections one after the other, send hex (a CONNECT_REQ) on each, wait for CONNECT_CNF */
+		{
+			char *e;
+			long n = strtol (arg, &e, 0);
+			uint8_t *b;
+			size_t len = unhex (e + 1, &b);
+			int i, ok = 0;
+
+			for (i = 0; i < n_mfd; ++i)
+				if (mfd[i] >= 0)
+					close (mfd[i]);
+			n_mfd = 0;
+			for (i = 0; i < n && i < MAX_MFD; ++i) {
+				int fd = unix_connect (argv[2]);
+
+				mfd[n_mfd++] = fd;
+				if (fd < 0)
+					continue;
+				if ((ssize_t) len == send (fd, b, len, MSG_NOSIGNAL)
+				    && multi_wait (fd, MSG_TYPE_CONNECT_CNF, 1500)) {
+					++ok;
+					fprintf (lg, "M %.6f %d %d -1\n", now (), MSG_TYPE_CONNECT_CNF, 0);
+				}
+			}
+			fprintf (lg, "MCONN %.6f %ld %d\n", now (), n, ok);
+			free (b);
+			break;
+		}
+
+		case 'B': /* B<hex0>/<hex1>/...: back to back, per connection: send the bytes, or close it if the entry is "-" */
+		{
+			uint8_t *bufs[MAX_MFD];
+			size_t lens[MAX_MFD];
+			int act[MAX_MFD];
+			char *tok, *sv = NULL;
+			int k = 0, i;
+			double t0;
+
+			for (tok = strtok_r (arg, "/", &sv); tok && k < MAX_MFD; tok = strtok_r (NULL, "/", &sv), ++k) {
+				if ('-' == tok[0]) {
+					act[k] = 0;
+					bufs[k] = NULL;
+					lens[k] = 0;
+				} else if ('=' == tok[0]) {
+					act[k] = 2;	/* leave this connection alone */
+					bufs[k] = NULL;
+					lens[k] = 0;
+				} else {
+					act[k] = 1;
+					lens[k] = unhex (tok, &bufs[k]);
+				}
+			}
+			t0 = now ();
+			fprintf (lg, "S0 %.6f %d %d\n", t0, idx, k);
+			for (i = 0; i < k && i < n_mfd; ++i) {
+				if (mfd[i] < 0)
+					continue;
+				if (0 == act[i]) {
+					close (mfd[i]);
+					mfd[i] = -1;
+				} else if (1 == act[i]) {
+					send (mfd[i], bufs[i], lens[i], MSG_NOSIGNAL | MSG_DONTWAIT);
+				}
+			}
+			fprintf (lg, "S %.6f %d %d %d\n", now (), idx, k, k);
+			for (i = 0; i < k; ++i)
+				free (bufs[i]);
+			break;
+		}
+
+		case 'R': /* drain all connections for ms */
+			multi_drain (strtol (arg, NULL, 0));
+			break;
+
+		case 'X':
+		{
+			int i;
+
+			fprintf (lg, "CLOSE %.6f\n", now ());
+			for (i = 0; i < n_mfd; ++i)
+				if (mfd[i] >= 0) {
+					close (mfd[i]);
+					mfd[i] = -1;
+				}
 			break;
 		}
 
